@@ -158,7 +158,7 @@ def ack_check(prop):
         os.makedirs(outdir, exist_ok=True)
         res = {"name": "acknowledgement-agrees-with-the-store", "kind": "bounded stand-in (real add_event + real query path, sqlite / in-memory lmdb stand-in)",
                "status": "ok", "evaluations": 0, "distinct": 0, "known_lines": [], "exhaustive": True, "samples": [],
-               "rule": "one case per awkward event (25: long / bare / integer / multi-byte tags, deletion requests naming nothing or malformed ids, "
+               "rule": "one case per awkward event (31: long / bare / integer / multi-byte tags, deletion requests naming nothing or malformed ids, "
                        "timestamp and kind edges, replaceable kinds, ephemeral) per backend; all distinct"}
         listed = {f["bounded_class"]: f for f in KNOWN_FINDINGS if f["property"] == prop and f.get("bounded_class") and f.get("status", "open") == "open"}
         for be in ("sql", "kv"):
@@ -185,8 +185,10 @@ def ack_check(prop):
     return check
 
 
-assume_doc("ACKENUM", "BOUNDED, not proved: 25 awkward events per backend submitted to one fresh store each; the LMDB side runs on the in-memory stand-in "
+assume_doc("ACKENUM", "BOUNDED, not proved: 31 awkward events per backend submitted to one fresh store each; the LMDB side runs on the in-memory stand-in "
            "(key limit 511 bytes as in LMDB's default build)")
+assume_doc("AUTHENUM", "BOUNDED, not proved: 5 spellings of relay_urls x ~16 relay tags x 3 challenges; the contract on check_auth_event is stated for an "
+           "authenticator whose valid_urls is a list, which Authenticator.parse_options (not under contract) has to produce")
 assume_doc("COHENUM", "BOUNDED, not proved: every history of up to 4 (thorough: 5) operations out of 21 (17 signed events, 3 direct deletions, one collector "
            "pass) on the in-memory lmdb stand-in, an engine error injected at every put/delete of the last operation of histories up to 3 (4); "
            "integer tag values, duplicate tags, NUL, 600-byte values and a multi-byte tag name are in the pool, booleans / floats are not (admission refuses them)")
